@@ -83,7 +83,8 @@ fn f64_to_signed<T>(value: f64, min: f64, max: f64, convert: fn(i64) -> T) -> Op
         return None;
     }
     let t = value.trunc();
-    if t < min || t > max {
+    // `i64::MAX as f64` rounds up to 2^63: without the last test 2^63 would pass and saturate to i64::MAX.
+    if t < min || t > max || t >= 9_223_372_036_854_775_808.0 {
         return None;
     }
     Some(convert(t as i64))
@@ -95,7 +96,8 @@ fn f64_to_unsigned<T>(value: f64, max: f64, convert: fn(u64) -> T) -> Option<T> 
         return None;
     }
     let t = value.trunc();
-    if t > max {
+    // `u64::MAX as f64` rounds up to 2^64: without the last test 2^64 would pass and saturate to u64::MAX.
+    if t > max || t >= 18_446_744_073_709_551_616.0 {
         return None;
     }
     Some(convert(t as u64))
